@@ -65,7 +65,7 @@ theorem run_eq_runFrom (cd : Codec) (cfg : WCfg) (kvs : List Entry) : W.run cd c
     `into_inner` produce exactly the model's file bytes — for every entry list, every number of index
     levels, every block size and every codec — or panic where the model traps; provided the model's
     intermediate states stay within the `usize` bounds `WSmall`. -/
-theorem src_writer_run (cd : Codec) (hcd : ∀ b, (cd.compress b).length < 2 ^ 64) :
+theorem src_writer_run (cd : Codec) (hcd : ∀ b : Bytes, b.length < 2 ^ 63 → (cd.compress b).length < 2 ^ 64) :
     ∀ (kvs : List Entry) (g : Gen.Writer) (w : W), RW g w → g.compression_type.toNat = cd.id →
     (∀ pre w', pre <+: kvs → W.run.go cd w pre = .ok w' → WSmall w') →
     match runFrom cd w kvs with
@@ -131,7 +131,7 @@ theorem src_C01_writer_roundtrip (cd : Codec) (cfg : WCfg) (es : List Entry) (ct
     (hlaw : cd.Lawful) (hid : cd.id ≤ 5) (hlv : cfg.levels ≤ 255) (hiv : 1 ≤ cfg.interval)
     (hasc : StrictAsc es) (hlens : ∀ e ∈ es, e.1.length < 2 ^ 32 ∧ e.2.length < 2 ^ 32)
     (hcount : es.length < 2 ^ 64)
-    (hcd : ∀ b, (cd.compress b).length < 2 ^ 64) (hct : ct.toNat = cd.id)
+    (hcd : ∀ b : Bytes, b.length < 2 ^ 63 → (cd.compress b).length < 2 ^ 64) (hct : ct.toNat = cd.id)
     (hsmall : ∀ pre w', pre <+: es → W.run.go cd (W.new cfg) pre = .ok w' → WSmall w') :
     ∃ file log, genWriterRun (codecFn cd) (genWriterNew cfg ct lvl) es = .ok file ∧ W.run cd cfg es = .ok (file, log) ∧
       (file.length < 2 ^ 64 → (∀ e ∈ log, e.raw.length < 2 ^ 32) →
@@ -148,7 +148,7 @@ theorem src_C01_writer_roundtrip (cd : Codec) (cfg : WCfg) (es : List Entry) (ct
 
 /-- **C18 on the regenerated `Writer::insert`**: a key that is not strictly above the last key of the block
     under construction makes the translated `insert` panic — nothing is written. -/
-theorem src_C18_writer_rejects_unsorted (cd : Codec) (hcd : ∀ b, (cd.compress b).length < 2 ^ 64) (g : Gen.Writer)
+theorem src_C18_writer_rejects_unsorted (cd : Codec) (hcd : ∀ b : Bytes, b.length < 2 ^ 63 → (cd.compress b).length < 2 ^ 64) (g : Gen.Writer)
     (w : W) (k v lk : Bytes) (hr : RW g w) (hs : SmallW g) (hk : k.length ≤ u32Max) (hv : v.length ≤ u32Max)
     (hl : w.bw.lastKey = some lk) (hn : ¬ lk < k) :
     ∃ msg, Gen.Writer.insert (codecFn cd) g k v = .error (.panic msg) := by
@@ -159,7 +159,7 @@ theorem src_C18_writer_rejects_unsorted (cd : Codec) (hcd : ∀ b, (cd.compress 
 /-- … and the state the translated `insert` returns always carries the inserted key as the last key of the
     block under construction, or an empty block under construction (the block was cut): the next call is
     checked against it. -/
-theorem src_C18_writer_tracks_last_key (cd : Codec) (hcd : ∀ b, (cd.compress b).length < 2 ^ 64) (g g' : Gen.Writer)
+theorem src_C18_writer_tracks_last_key (cd : Codec) (hcd : ∀ b : Bytes, b.length < 2 ^ 63 → (cd.compress b).length < 2 ^ 64) (g g' : Gen.Writer)
     (w : W) (k v : Bytes) (hr : RW g w) (hs : SmallW g)
     (h : Gen.Writer.insert (codecFn cd) g k v = .ok g') :
     ∃ w', W.insert cd w k v = .ok w' ∧ RW g' w' ∧ g'.block_writer.last_key = w'.bw.lastKey := by
